@@ -1,7 +1,7 @@
 //! C12 — deleting a subscription releases the consumers waiting on it.
 //!
 //! Episode: a subscription with 1-4 open StreamingPulls (request side open or
-//! closed), 0-3 blocked Pulls and 0-10 in-flight ack/modify/pull calls is
+//! closed), 0-3 blocked Pulls and 0-10 (sometimes 17-70) in-flight ack/modify/pull calls is
 //! deleted, optionally racing a publish. One virtual second after the delete
 //! returned OK (and again after one virtual hour) the monitor looks at every
 //! consumer (Q-del, DESIGN 4/C12).
@@ -25,7 +25,7 @@ pub fn plan(p: &EpParams) -> Plan {
     Plan {
         episodes: n,
         exhaustive: false,
-        rule: "seeded episodes: 1-4 streams (request side open/closed), 0-3 blocked pulls, 0-10 in-flight calls, in a quarter of the episodes the topic is deleted first (detached subscription), then DeleteSubscription (optionally racing a publish); tokio select! RNG and hook yields seeded per episode. Non-trivial: the delete returned OK while >=1 stream was open or >=1 pull was blocked. Distinct: (streams open/closed counts, blocked pulls, in-flight kinds, racing publish, observed end codes).".into(),
+        rule: "seeded episodes: 1-4 streams (request side open/closed), 0-3 blocked pulls, 0-10 (a third of the episodes: 17-70, more than the mailbox holds) in-flight calls, in a quarter of the episodes the topic is deleted first (detached subscription), then DeleteSubscription (optionally racing a publish); tokio select! RNG and hook yields seeded per episode. Non-trivial: the delete returned OK while >=1 stream was open or >=1 pull was blocked. Distinct: (streams open/closed counts, blocked pulls, in-flight kinds, racing publish, observed end codes).".into(),
     }
 }
 
@@ -98,7 +98,11 @@ async fn episode(p: &EpParams) -> EpReport {
     let blocked_before: Vec<bool> = blocked.iter().map(|b| !b.is_finished()).collect();
 
     // In-flight calls racing the delete.
-    let n_inflight = rng.below(11);
+    // a third of the episodes: a burst larger than the 16-slot mailbox around the delete
+    let n_inflight = if rng.chance(1, 3) { rng.range(17, 70) } else { rng.below(11) };
+    if n_inflight > 16 {
+        rep.inc("delete_inside_burst_over_mailbox");
+    }
     let mut inflight = Vec::new();
     let mut kinds = Vec::new();
     let race_publish = rng.chance(1, 3);
